@@ -225,7 +225,7 @@ def drive(ctx, sched, mon, P, passes_requested, opts):
     if ctx.is_fatal("C09.is_exhausted"):
         ctx.require(_truth(ob["is_exhausted"]) is False, "C09.is_exhausted", {"when": "before first next()"}, soft=True)
     q0 = query_storage(ctx, sched, "before")
-    ctx.trace(("uses0", tuple(sorted((k, str(v)) for k, v in q0.items()))))
+    ctx.trace(("uses0", tuple(sorted(q0.items()))))
 
     count = 0
     limit = opts.get("max_actions", 200000)
@@ -355,7 +355,7 @@ def drive(ctx, sched, mon, P, passes_requested, opts):
         if ctx.is_fatal("C09.is_exhausted"):
             ctx.require(_truth(ob["is_exhausted"]) is True, "C09.is_exhausted", {"when": "after StopIteration"}, soft=True)
     q1 = query_storage(ctx, sched, "after")
-    ctx.trace(("uses1", tuple(sorted((k, str(v)) for k, v in q1.items()))))
+    ctx.trace(("uses1", tuple(sorted(q1.items()))))
     if ctx.is_fatal("C11.underreport"):
         for st in (RAM, DISK):
             if mon.touched[st]:
